@@ -226,6 +226,14 @@ ALLOWED_COUPLINGS = {
 }
 
 
+def task_dipole_rows(ctx):
+    """the dipole of molecule m mentions only molecule m's real atoms: no padding coordinate, no batch mate, whatever the total
+    charges are (contract shared with C14's dipole task; dense and zero-padded batch)."""
+    from contracts.C14_observables import dipole_contract
+
+    dipole_contract(ctx)
+
+
 def task_coupled_ops(ctx):
     """Batch-coupled reductions in the iterative SCF code are enumerated and compared with a declared allow-list."""
     import seqm.seqm_functions.scf_loop as S_
@@ -469,5 +477,5 @@ def task_density_rows(ctx):
     ctx.assume_note("A2: the eigen-solver returns some eigenvector matrix per molecule (columns ascending in energy); CHECK_DEGENERACY off (module default)")
 
 
-TASKS_QUICK = ["density_rows", "fermi_rows", "parser_rows", "fock_rows", "pack_unpack", "coupled_ops"]
+TASKS_QUICK = ["density_rows", "fermi_rows", "dipole_rows", "parser_rows", "fock_rows", "pack_unpack", "coupled_ops"]
 TASKS_THOROUGH = TASKS_QUICK
